@@ -403,7 +403,7 @@ def run(ctx):
         return pairs, line.strip()
 
     pcases = [[], [(0, 1)], [(1, 0), (0, 0)]]
-    budget = 8 if quick else 80
+    budget = 11 if quick else 80
     used = 0
 
     def cost(exps):
@@ -411,6 +411,9 @@ def run(ctx):
     templates = []
     a, bb = rng.randrange(1, R), rng.randrange(1, R)
     templates.append([(a, bb), (-(a * bb), 1)])                # e(aG1,bG2)·e(-abG1,G2) = 1
+    # the same G2 point at two positions that are NOT adjacent, with different G1 points: every pair is a factor of its own
+    c0 = rng.randrange(1, R)
+    templates.append([(a, 1), (c0, 2), (-(a + 2 * c0), 1)])    # true: a + 2c - (a + 2c) = 0
     # the same (g1, g2) pair listed twice must be multiplied in twice (a per-call cache of Miller loops must not drop it)
     templates.append([(a, bb), (a, bb), (-(2 * a * bb), 1)])   # true:  e(G1,G2)^(2ab - 2ab)
     templates.append([(a, bb), (a, bb), (-(a * bb), 1)])       # false: e(G1,G2)^(ab)
